@@ -156,6 +156,64 @@ def row_term(i, D, idx, sig, rho, vals, lc, tol):
                                                fl(sig[i]), fl(rho[i]), flist(vals[i][:nf].tolist()), "true" if skip else "false"))
 
 
+def pipeline_probe(ctx, rng):
+    """the directed memberships as the graph stage produces them (kNN search included): fuzzy_simplicial_set(apply_set_operations=False)
+    on data with points repeated 2..5 times (zero-distance neighbours) and with distinct points; per sample: no membership to itself,
+    strength exactly 1 for every zero-distance duplicate and for the nearest distinct neighbour (local_connectivity = 1), strengths in
+    (0,1], non-increasing in distance, total = log2(k) to 1e-3 where attainable, finite positive bandwidth"""
+    import umap.umap_ as U
+    for rep in range(4 if ctx.tier == "quick" else 20):
+        npr = np.random.RandomState(rng.randrange(2 ** 31))
+        n0 = rng.randint(18, 30); dim = rng.randint(2, 4)
+        X0 = npr.normal(size=(n0, dim)) * 10 ** rng.uniform(-2, 2)
+        reps = [1] * n0
+        for i in rng.sample(range(n0), 4): reps[i] = rng.choice([2, 3, 4, 5])
+        if rep == 0: reps = [1] * n0
+        X = np.repeat(X0, reps, axis=0).astype(np.float32)
+        perm = npr.permutation(X.shape[0]); X = X[perm]
+        n = X.shape[0]; k = rng.randint(max(6, max(reps) + 2), 10)
+        metric = "precomputed" if rep % 2 else "euclidean"
+        D = np.sqrt(((X.astype(np.float64)[:, None] - X.astype(np.float64)[None]) ** 2).sum(-1))
+        desc = dict(api="fuzzy_simplicial_set(apply_set_operations=False)", X=X, k=k, metric=metric, max_copies=max(reps))
+        try:
+            A, sig, rho = U.fuzzy_simplicial_set(D.astype(np.float32) if metric == "precomputed" else X, k, np.random.RandomState(0), metric,
+                                                 apply_set_operations=False)[:3]
+            A = A.tocsr(); A.sum_duplicates()
+        except Exception as e:
+            ctx.fail("fuzzy_simplicial_set:raises", "%s: %s" % (type(e).__name__, e), desc); continue
+        ctx.evaluations += n
+        ctx.tag(("pipeline", rep, X.tobytes()), ["pipeline_directed_memberships"] + (["repeated_points"] if max(reps) > 1 else []) + (["three_or_more_copies"] if max(reps) > 2 else []))
+        Ad = np.asarray(A.todense()).astype(np.float64)
+        bad = None
+        for i in range(n):
+            row = Ad[i]
+            if row[i] != 0: bad = "sample %d has membership %r to itself" % (i, row[i]); break
+            dup = [j for j in range(n) if j != i and D[i, j] == 0]
+            others = [j for j in range(n) if j != i and D[i, j] > 0]
+            if len(dup) >= k: continue
+            for j in dup:
+                if abs(row[j] - 1.0) > 1e-6: bad = "sample %d: zero-distance duplicate %d has strength %r, not 1 (%d copies of the point)" % (i, j, row[j], len(dup) + 1); break
+            if bad: break
+            nz = [j for j in range(n) if row[j] != 0]
+            # (memberships may underflow to exactly 0 in float32 when the target total is unattainable and the bandwidth sits on its floor)
+            if len(nz) > k - 1 or len(nz) < len(dup) + 1: bad = "sample %d has %d memberships for k = %d (%d zero-distance duplicates)" % (i, len(nz), k, len(dup)); break
+            if np.any(row[nz] <= 0) or np.any(row[nz] > 1 + 1e-6): bad = "sample %d: strength outside (0,1]" % i; break
+            dmin = min(D[i, j_] for j_ in others)
+            tied = [j_ for j_ in others if D[i, j_] == dmin]          # copies of the nearest distinct point: the table lists some of them
+            if abs(max(row[j_] for j_ in tied) - 1.0) > 1e-6:
+                bad = "sample %d: nearest distinct neighbour(s) %s have strength %r, not 1" % (i, tied[:3], [float(row[j_]) for j_ in tied[:3]]); break
+            order = sorted(nz, key=lambda j_: D[i, j_])
+            if any(row[a_] + 1e-6 < row[b_] for a_, b_ in zip(order, order[1:]) if D[i, a_] < D[i, b_]): bad = "sample %d: strengths not non-increasing in distance" % i; break
+            if not (np.isfinite(sig[i]) and sig[i] > 0): bad = "sample %d: bandwidth %r" % (i, sig[i]); break
+            # the total (self column counted as the kernel does: k-1 neighbours + nothing for self) against log2(k)
+            tot = row[nz].sum()
+            attainable = (1 + len(dup)) <= np.log2(k) + 1e-9
+            if attainable and abs(tot - np.log2(k)) > 2e-3 and sig[i] > 1.001e-3 * D[i][D[i] < np.inf].mean():
+                bad = "sample %d: total membership %r, log2(k) = %r" % (i, tot, np.log2(k)); break
+        if bad:
+            ctx.fail("fuzzy_simplicial_set:directed_memberships", bad, desc)
+
+
 def run(ctx):
     ctx.check_proofs(["prop/P_C01.v"])
     # translation tie: Gallina regenerated from the current umap/umap_.py; link theorems (coq/link/L_knn.v) re-checked:
@@ -240,6 +298,7 @@ def run(ctx):
             if code != -1:
                 field = {1: "rho", 2: "sigma finite/positive", 3: "strengths", 4: "floor"}.get(code % 10, "?")
                 ctx.diff(cases[s + off], "row %d: %s" % (code // 10, field))
+    pipeline_probe(ctx, rng)
     return ctx.finish(RULE, assumptions=["float32 arithmetic / fastmath of the compiled kernel is observed, not modelled (strength tolerance %g)" % SATOL,
                                            "rows whose floor(lc)-th non-zero entry is infinite (rho = inf) are not generated",
                                            "link theorem for smooth_knn_dist: finite tables only (NPY_INFINITY is the generated function's argument pinf > 2^n_iter); "
